@@ -1,4 +1,5 @@
 import TD.C08.LemmasRound
+import TD.C08.LemmasEbs
 
 /-!
 # C08 — LIS tables and data format specifications survive encode then decode
@@ -228,5 +229,278 @@ theorem table_roundtrip (t : TableSpec) (ok : TableOk t) :
       rw [this]; exact hallmn r0 (hkeptMem r0 hr0))
     simpa [stR, TS.empty, rtRows] using this
   refine ⟨R, by rw [hW0]; exact hW, by simp [tableLrBytes, hgen], hread, hWt, hWr', by rw [hRt], hRrows, hRinv.names, hRinv.idx, hWck, hRck⟩
+
+/-! ## Duplicate rows -/
+
+theorem keyEq_refl (k : Option Val) : keyEq k k = true := by
+  cases k with
+  | none => rfl
+  | some v => cases v <;> simp [keyEq, Val.pyEq]
+
+/-- **Duplicate rows are dropped with the first kept** (reader, on any stream of rows — also hand-assembled ones):
+after the table block, reading rows `rows` (each a type-0 block followed by type-69 blocks) leaves exactly
+`kept rows`, in order, and the row index lists their names. -/
+theorem dupe_rows_first_kept (tcb : Cb) (rows : List (List Cb)) (hrows : ∀ r ∈ rows, RowOk r)
+    (hm : ∀ r ∈ rows, MnemOk r) :
+    ∃ R, (stepAll rows.flatten { TS.empty with tcb := some tcb }).bind indexLast = .ok R ∧
+      R.rows = kept rows ∧ R.rowIdx.map (·.1) = (kept rows).map rowValue ∧
+      R.rowIdx.map (·.2) = List.range (kept rows).length := by
+  have hreg := reader_regroup rows hrows { TS.empty with tcb := some tcb } rfl
+  rw [indexLast_nil _ rfl] at hreg
+  obtain ⟨R, hR, _, hinv, hr, _⟩ := runRows_spec rows hm { TS.empty with tcb := some tcb } ⟨rfl, rfl⟩
+  have hr' : R.rows = kept rows := by simpa [TS.empty, kept] using hr
+  exact ⟨R, by rw [hreg]; exact hR, hr', by rw [hinv.names, hr'], by rw [hinv.idx, hr']⟩
+
+/-- `kept` only drops rows, never reorders -/
+theorem kept_sublist (rows : List (List Cb)) : ∀ seen, (keptAux seen rows).Sublist rows := by
+  induction rows with
+  | nil => intro seen; simp [keptAux]
+  | cons r rs ih =>
+    intro seen
+    simp only [keptAux]
+    split
+    · exact (ih seen).cons r
+    · exact (ih _).cons₂ r
+
+theorem keptAux_not_seen (rows : List (List Cb)) : ∀ seen, ∀ r ∈ keptAux seen rows,
+    seen.any (fun s => keyEq s (rowValue r)) = false := by
+  induction rows with
+  | nil => intro seen r hr; simp [keptAux] at hr
+  | cons a rs ih =>
+    intro seen r hr
+    simp only [keptAux] at hr
+    split at hr
+    · exact ih seen r hr
+    · rename_i hns
+      rcases List.mem_cons.1 hr with rfl | hr'
+      · simpa using hns
+      · have := ih _ r hr'
+        simp only [List.any_append, Bool.or_eq_false_iff] at this
+        exact this.1
+
+/-- no two kept rows have equal names -/
+theorem kept_names_distinct (rows : List (List Cb)) : ∀ seen,
+    (keptAux seen rows).Pairwise (fun a b => keyEq (rowValue a) (rowValue b) = false) := by
+  induction rows with
+  | nil => intro seen; simp [keptAux]
+  | cons a rs ih =>
+    intro seen
+    simp only [keptAux]
+    split
+    · exact ih seen
+    · refine List.Pairwise.cons ?_ (ih _)
+      intro b hb
+      have := keptAux_not_seen rs _ b hb
+      simp only [List.any_append, Bool.or_eq_false_iff, List.any_cons, List.any_nil, Bool.or_false] at this
+      exact this.2
+
+/-- every row's name is the name of a kept row (the kept one is the first of that name, `kept_sublist`) -/
+theorem kept_covers (rows : List (List Cb)) : ∀ seen, ∀ r ∈ rows,
+    seen.any (fun s => keyEq s (rowValue r)) = true ∨ ∃ k ∈ keptAux seen rows, keyEq (rowValue k) (rowValue r) = true := by
+  induction rows with
+  | nil => intro seen r hr; simp at hr
+  | cons a rs ih =>
+    intro seen r hr
+    simp only [keptAux]
+    by_cases ha : seen.any (fun s => keyEq s (rowValue a)) = true
+    · simp only [ha, if_true]
+      rcases List.mem_cons.1 hr with rfl | hr'
+      · exact Or.inl ha
+      · exact ih seen r hr'
+    · simp only [ha, Bool.false_eq_true, if_false]
+      rcases List.mem_cons.1 hr with rfl | hr'
+      · exact Or.inr ⟨r, by simp, keyEq_refl _⟩
+      · rcases ih (seen ++ [rowValue a]) r hr' with h | ⟨k, hk, hke⟩
+        · simp only [List.any_append, Bool.or_eq_true, List.any_cons, List.any_nil, Bool.or_false] at h
+          rcases h with h | h
+          · exact Or.inl h
+          · exact Or.inr ⟨a, by simp, h⟩
+        · exact Or.inr ⟨k, by simp [hk], hke⟩
+
+/-! ## Entry block sets -/
+
+/-- the 15 blocks written before the terminator -/
+def ebsPayload (E : List EB) : List EB := E.filter (fun e => e.type ≠ 10 ∧ e.type ≠ 0)
+
+theorem ebs_explicit (E : List EB) (h : EBSOk E) :
+    ∃ a0 a1 a2 a3 a4 a5 a6 a7 a8 a9 a10 a11 a12 a13 a14 a15 a16,
+      E = [a0, a1, a2, a3, a4, a5, a6, a7, a8, a9, a10, a11, a12, a13, a14, a15, a16] ∧
+      a0.type = 0 ∧ a1.type = 1 ∧ a2.type = 2 ∧ a3.type = 3 ∧ a4.type = 4 ∧ a5.type = 5 ∧ a6.type = 6 ∧ a7.type = 7 ∧
+      a8.type = 8 ∧ a9.type = 9 ∧ a10.type = 10 ∧ a11.type = 11 ∧ a12.type = 12 ∧ a13.type = 13 ∧ a14.type = 14 ∧
+      a15.type = 15 ∧ a16.type = 16 := by
+  have hl : E.length = 17 := by have := congrArg List.length h.types; simpa using this
+  obtain ⟨a0, a1, a2, a3, a4, a5, a6, a7, a8, a9, a10, a11, a12, a13, a14, a15, a16, rfl⟩ := len17 E hl
+  have ht := h.types
+  simp only [List.map_cons, List.map_nil, List.range, List.range.loop] at ht
+  injection ht with h0 ht; injection ht with h1 ht; injection ht with h2 ht; injection ht with h3 ht
+  injection ht with h4 ht; injection ht with h5 ht; injection ht with h6 ht; injection ht with h7 ht
+  injection ht with h8 ht; injection ht with h9 ht; injection ht with h10 ht; injection ht with h11 ht
+  injection ht with h12 ht; injection ht with h13 ht; injection ht with h14 ht; injection ht with h15 ht
+  injection ht with h16 ht
+  exact ⟨a0, a1, a2, a3, a4, a5, a6, a7, a8, a9, a10, a11, a12, a13, a14, a15, a16, rfl,
+    h0, h1, h2, h3, h4, h5, h6, h7, h8, h9, h10, h11, h12, h13, h14, h15, h16⟩
+
+theorem evenOf_term (E : List EB) : ∃ term, evenOf E = E.set 0 term ∧ EBLegal term ∧ term.type = 0 ∧
+    (term.size = 0 ∨ term.size = 1) ∧ (ebsLisSize (E.set 0 term)) % 2 = 0 := by
+  unfold evenOf
+  split
+  · rename_i hodd
+    refine ⟨⟨0, 1, 66, some (.int 1)⟩, rfl, ⟨by decide, by decide, Or.inr ⟨.int 1, rfl, Or.inr (Or.inl ⟨rfl, rfl, 1, rfl, by decide, by decide⟩)⟩⟩, rfl, Or.inr rfl, ?_⟩
+    cases E with
+    | nil => simp [ebsLisSize] at hodd
+    | cons a r =>
+      simp only [List.set_cons_zero, ebsLisSize, List.filter_cons] at hodd ⊢
+      simp only [ne_eq, show ¬ (0:Nat) = 10 by decide, not_false_eq_true, decide_true, if_true, List.map_cons, List.sum_cons] at hodd ⊢
+      omega
+  · rename_i heven
+    exact ⟨⟨0, 0, 66, none⟩, rfl, ⟨by decide, by decide, Or.inl ⟨rfl, rfl⟩⟩, rfl, Or.inl rfl, by omega⟩
+
+/-- **Entry block set round trip.** For every legal entry block set `E` (17 blocks, block `i` of type `i`, each either
+without value and of size 0 or with a value whose size matches its representation code — hence for the set obtained
+from the defaults by `setEntryBlock` on *any subset* of the blocks, `ebs_subset_legal`): `lisBytes()` succeeds, and
+`readFromFile` on those bytes (followed by anything, e.g. the channel blocks), starting from any consistent set `E0`
+(the defaults in `LrDFSRRead`), yields block for block the set that was written — values through `rtVal` —
+except block 10, which is never written and keeps the reader's value, and the terminator, which is recomputed from
+the parity of the sizes.  Everything after the terminator is left unread. -/
+theorem ebs_roundtrip (E E0 : List EB) (hE : EBSOk E) (hE0 : integrity E0 = true) (rest : Bytes) :
+    ∃ bs, ebsBytes E = .ok bs ∧
+      ebsRead (bs ++ rest) E0 = .ok (evenOf ((E.map rtEB).set 10 (E0.getD 10 ⟨10, 0, 66, none⟩)), rest) := by
+  have hint := ebsOk_integrity E hE
+  obtain ⟨term, hterm, htl, ht0, _, _⟩ := evenOf_term E
+  obtain ⟨a0, a1, a2, a3, a4, a5, a6, a7, a8, a9, a10, a11, a12, a13, a14, a15, a16, rfl,
+    h0, h1, h2, h3, h4, h5, h6, h7, h8, h9, h10, h11, h12, h13, h14, h15, h16⟩ := ebs_explicit E hE
+  let bl : List EB := [a1, a2, a3, a4, a5, a6, a7, a8, a9, a11, a12, a13, a14, a15, a16]
+  have hfilter : (evenOf [a0, a1, a2, a3, a4, a5, a6, a7, a8, a9, a10, a11, a12, a13, a14, a15, a16]).filter
+      (fun e => e.type ≠ 10 ∧ e.type ≠ 0) = bl := by
+    rw [hterm]
+    simp [List.filter, ht0, h1, h2, h3, h4, h5, h6, h7, h8, h9, h10, h11, h12, h13, h14, h15, h16, bl]
+  have hget : (evenOf [a0, a1, a2, a3, a4, a5, a6, a7, a8, a9, a10, a11, a12, a13, a14, a15, a16]).getD 0 ⟨0, 0, 66, none⟩ = term := by
+    rw [hterm]; rfl
+  have hblSet : ∀ e ∈ bl, Settable e := by
+    intro e he
+    have hleg : EBLegal e := hE.legal e (by
+      simp only [bl, List.mem_cons, List.mem_nil_iff, or_false] at he
+      rcases he with rfl | rfl | rfl | rfl | rfl | rfl | rfl | rfl | rfl | rfl | rfl | rfl | rfl | rfl | rfl <;> simp)
+    simp only [bl, List.mem_cons, List.mem_nil_iff, or_false] at he
+    rcases he with rfl | rfl | rfl | rfl | rfl | rfl | rfl | rfl | rfl | rfl | rfl | rfl | rfl | rfl | rfl <;>
+      refine ⟨hleg, ?_, ?_, ?_⟩ <;> omega
+  have hbytes : ebsBytes [a0, a1, a2, a3, a4, a5, a6, a7, a8, a9, a10, a11, a12, a13, a14, a15, a16]
+      = .ok (bl.flatMap encEBRaw ++ encEBRaw term) := by
+    unfold ebsBytes
+    rw [setEven_eq _ hint]
+    simp only [hfilter, hget]
+    exact concatE_ok_eb bl (fun e he => (encEBRaw_spec e (hblSet e he).1).1) _ _ (encEBRaw_spec term htl).1
+  refine ⟨_, hbytes, ?_⟩
+  have hfuel : bl.length + 1 ≤ (bl.flatMap encEBRaw ++ encEBRaw term ++ rest).length := by
+    have h1 := length_le_flatMap_eb bl (fun e he => by rw [(encEBRaw_spec e (hblSet e he).1).2.1]; omega)
+    have h2 := (encEBRaw_spec term htl).2.1
+    simp only [List.length_append]
+    omega
+  have hloop := ebsLoop_list term htl ht0 rest bl hblSet E0 _ hE0 hfuel
+  have hintR : integrity (evenOf (applyRead E0 bl)) = true :=
+    integrity_evenOf _ (integrity_applyRead bl (fun e he => (hblSet e he).1) E0 hE0)
+  unfold ebsRead
+  rw [List.append_assoc] at hloop ⊢
+  rw [hloop]
+  simp only [setEven_eq _ hintR, evenOf_idem]
+  -- the state: E0 with blocks 1..9, 11..16 replaced
+  have hl0 : E0.length = 17 := by
+    simp only [integrity, Bool.and_eq_true, beq_iff_eq] at hE0; exact hE0.1
+  obtain ⟨f0, f1, f2, f3, f4, f5, f6, f7, f8, f9, f10, f11, f12, f13, f14, f15, f16, rfl⟩ := len17 E0 hl0
+  have happly : applyRead [f0, f1, f2, f3, f4, f5, f6, f7, f8, f9, f10, f11, f12, f13, f14, f15, f16] bl
+      = ([rtEB a0, rtEB a1, rtEB a2, rtEB a3, rtEB a4, rtEB a5, rtEB a6, rtEB a7, rtEB a8, rtEB a9, f10, rtEB a11,
+          rtEB a12, rtEB a13, rtEB a14, rtEB a15, rtEB a16]).set 0 f0 := by
+    simp [applyRead, bl, h1, h2, h3, h4, h5, h6, h7, h8, h9, h11, h12, h13, h14, h15, h16]
+  rw [happly, evenOf_set0]
+  rfl
+
+/-- `setEntryBlock` keeps an entry block set legal, so every set reachable from the defaults by setting any subset of
+the blocks (with legal sizes) is in the domain of `ebs_roundtrip`. -/
+theorem ebs_setEB_legal (E : List EB) (e : EB) (hE : EBSOk E) (he : EBLegal e) (ht : e.type < 17) (h10 : e.type ≠ 10) :
+    ∃ E', setEB e E = .ok E' ∧ EBSOk E' := by
+  have hint := ebsOk_integrity E hE
+  refine ⟨_, setEB_eq e E hint ht h10 (ebOk_of_legal' e he), ?_⟩
+  obtain ⟨term, hterm, htl, ht0, _, _⟩ := evenOf_term (E.set e.type e)
+  have hl : E.length = 17 := by have := congrArg List.length hE.types; simpa using this
+  rw [hterm]
+  constructor
+  · apply List.ext_getElem
+    · simp [hl]
+    · intro i hi1 hi2
+      simp only [List.getElem_map, List.getElem_range, List.getElem_set]
+      have hEi : (E[i]'(by simp at hi1; omega)).type = i := by
+        have := congrArg (fun l => l[i]?) hE.types
+        simp only [List.getElem?_map, List.getElem?_range (by simp at hi2; omega : i < 17)] at this
+        rw [List.getElem?_eq_getElem (by simp at hi1; omega)] at this
+        simpa using this
+      split
+      · rename_i h; rw [ht0]; exact h
+      · split
+        · rename_i h; exact h
+        · exact hEi
+  · intro x hx
+    rcases List.mem_or_eq_of_mem_set hx with hx | rfl
+    · rcases List.mem_or_eq_of_mem_set hx with hx | rfl
+      · exact hE.legal x hx
+      · exact he
+    · exact htl
+
+/-- the defaults of `EntryBlockSet()` are a legal set -/
+theorem ebs_default_legal : ∃ E, ebsDefault = .ok E ∧ EBSOk E := by
+  refine ⟨evenOf ebsInit, setEven_eq _ (by decide), ?_, ?_⟩
+  · decide
+  · intro e he
+    have : evenOf ebsInit = ⟨0, 0, 66, none⟩ :: ebsInit.tail := by decide
+    rw [this] at he
+    simp only [ebsInit, List.tail_cons, List.mem_cons, List.mem_nil_iff, or_false] at he
+    rcases he with rfl | rfl | rfl | rfl | rfl | rfl | rfl | rfl | rfl | rfl | rfl | rfl | rfl | rfl | rfl | rfl | rfl
+    all_goals first
+      | exact ⟨by decide, by decide, Or.inl ⟨rfl, rfl⟩⟩
+      | exact ⟨by decide, by decide, Or.inr ⟨_, rfl, Or.inr (Or.inl ⟨rfl, rfl, _, rfl, by decide, by decide⟩)⟩⟩
+      | exact ⟨by decide, by decide, Or.inr ⟨_, rfl, Or.inl ⟨rfl, _, rfl, rfl, by decide, by decide⟩⟩⟩
+      | exact ⟨by decide, by decide, Or.inr ⟨_, rfl, Or.inr (Or.inr (Or.inr (Or.inr ⟨rfl, rfl, _, rfl⟩)))⟩⟩
+
+/-- **Even length.** The bytes of a legal entry block set have even length (48 bytes of block headers plus the sizes,
+the terminator taking size 1 exactly when the other sizes sum to an odd number), and `lisSize()` is even. -/
+theorem ebs_even_length (E : List EB) (hE : EBSOk E) :
+    ∃ bs, ebsBytes E = .ok bs ∧ bs.length % 2 = 0 ∧ ebsLisSize (evenOf E) % 2 = 0 := by
+  have hint := ebsOk_integrity E hE
+  obtain ⟨term, hterm, htl, ht0, _, hpar⟩ := evenOf_term E
+  obtain ⟨a0, a1, a2, a3, a4, a5, a6, a7, a8, a9, a10, a11, a12, a13, a14, a15, a16, rfl,
+    h0, h1, h2, h3, h4, h5, h6, h7, h8, h9, h10, h11, h12, h13, h14, h15, h16⟩ := ebs_explicit E hE
+  obtain ⟨bs, hbs, _⟩ := ebs_roundtrip _ (evenOf ebsInit) hE (by decide) []
+  refine ⟨bs, hbs, ?_, by rw [hterm]; exact hpar⟩
+  -- recompute the bytes
+  let bl : List EB := [a1, a2, a3, a4, a5, a6, a7, a8, a9, a11, a12, a13, a14, a15, a16]
+  have hfilter : (evenOf [a0, a1, a2, a3, a4, a5, a6, a7, a8, a9, a10, a11, a12, a13, a14, a15, a16]).filter
+      (fun e => e.type ≠ 10 ∧ e.type ≠ 0) = bl := by
+    rw [hterm]
+    simp [List.filter, ht0, h1, h2, h3, h4, h5, h6, h7, h8, h9, h10, h11, h12, h13, h14, h15, h16, bl]
+  have hget : (evenOf [a0, a1, a2, a3, a4, a5, a6, a7, a8, a9, a10, a11, a12, a13, a14, a15, a16]).getD 0 ⟨0, 0, 66, none⟩ = term := by
+    rw [hterm]; rfl
+  have hleg : ∀ e ∈ bl, EBLegal e := by
+    intro e he
+    apply hE.legal e
+    simp only [bl, List.mem_cons, List.mem_nil_iff, or_false] at he
+    rcases he with rfl | rfl | rfl | rfl | rfl | rfl | rfl | rfl | rfl | rfl | rfl | rfl | rfl | rfl | rfl <;> simp
+  have hbytes : ebsBytes [a0, a1, a2, a3, a4, a5, a6, a7, a8, a9, a10, a11, a12, a13, a14, a15, a16]
+      = .ok (bl.flatMap encEBRaw ++ encEBRaw term) := by
+    unfold ebsBytes
+    rw [setEven_eq _ hint]
+    simp only [hfilter, hget]
+    exact concatE_ok_eb bl (fun e he => (encEBRaw_spec e (hleg e he)).1) _ _ (encEBRaw_spec term htl).1
+  rw [hbytes] at hbs
+  cases hbs
+  have L := fun e he => (encEBRaw_spec e (hleg e he)).2.1
+  have hpar' : (term.size + a1.size + a2.size + a3.size + a4.size + a5.size + a6.size + a7.size + a8.size + a9.size
+      + a11.size + a12.size + a13.size + a14.size + a15.size + a16.size) % 2 = 0 := by
+    simp [ebsLisSize, List.filter, ht0, h1, h2, h3, h4, h5, h6, h7, h8, h9, h10, h11, h12, h13, h14, h15, h16] at hpar
+    omega
+  simp only [bl, List.flatMap_cons, List.flatMap_nil, List.length_append, List.length_nil,
+    L a1 (by simp [bl]), L a2 (by simp [bl]), L a3 (by simp [bl]), L a4 (by simp [bl]), L a5 (by simp [bl]),
+    L a6 (by simp [bl]), L a7 (by simp [bl]), L a8 (by simp [bl]), L a9 (by simp [bl]), L a11 (by simp [bl]),
+    L a12 (by simp [bl]), L a13 (by simp [bl]), L a14 (by simp [bl]), L a15 (by simp [bl]), L a16 (by simp [bl]),
+    (encEBRaw_spec term htl).2.1]
+  omega
 
 end TD.C08
